@@ -115,7 +115,8 @@ func newPipeline() (backend, error) {
 	return b, nil
 }
 
-func (b *pipBackend) hold(id string, m commservices.LockMap, section func()) (bool, error) {
+func (b *pipBackend) hold(id string, sp holdSpec, section func()) (bool, error) {
+	m := sp.m
 	b.pending.Add(1)
 	defer b.pending.Add(-1)
 	ran := false
